@@ -644,6 +644,13 @@ fn split_and_glue_attempt(
 
     ds = cut_tile(&ds, &cut_chambers);
 
+    // the cut must separate the glue face from its partner; otherwise the
+    // piece that holds both would be glued to itself
+    let partner = ds.op(3, glue_chamber).unwrap();
+    if ds.orbit([0, 1, 2], glue_chamber).contains(&partner) {
+        return None;
+    }
+
     let junk = ds.orbit([0, 1, 3], glue_chamber);
     collapse(&DSetOrEmpty::DSet(ds), junk, 3)
 }
